@@ -10,7 +10,8 @@ from ..harness import Sub, Violation, Inconclusive, crash_is_violation
 from ..oracles import bspl, advect
 
 PROPERTY = "C13"
-HANG_SECONDS = 40.0
+HANG_SECONDS = 60.0
+LINE_BUDGET = 1000000000
 RULE = ("Hypothesis-generated cases: order 2-6, nz order+1..16, ntheta 4-12 (uniform-cubic or general periodic theta "
         "splines), rotational transform 0 / 0.8 / generated, local radial ranges taken from real Layouts of several "
         "rank coordinates (block starts > 0), arbitrary potentials.  Oracle = independent formula b_z(r)/dz sum_l w_l "
